@@ -325,8 +325,11 @@ func TestC03Soup(t *testing.T) {
 	corpus := c08Corpus()
 	rapidCheck(t, col, func(rt *rapid.T) {
 		script, kind := drawOddProgram(rt, corpus)
-		if containsAny(script, "√", "OPTIMIZE") {
-			col.Excluded("known:sqrt-fold-or-OPTIMIZE-in-mutated-text")
+		if containsAny(script, "√", "OPTIMIZE") && knownOptimizerShapes(script) {
+			// the root of an integer constant, or the name OPTIMIZE used as a
+			// variable: the two open findings; a script that merely spells the
+			// characters elsewhere (in a string, a root of a variable) is in
+			col.Excluded("known:sqrt-of-a-constant-or-OPTIMIZE-variable-in-mutated-text")
 			return
 		}
 		c := &DiffCase{Prop: "C03", Kind: "diff", Script: script}
@@ -367,6 +370,86 @@ func TestC18Soup(t *testing.T) {
 		}
 		col.Case(script, acc && nt, func() interface{} { return map[string]interface{}{"script": clip(script, 500), "kind": kind} })
 	})
+}
+
+// knownOptimizerShapes reports whether the script, as the repository's parser
+// reads it, applies a square root to an operand made of integer literals
+// (open finding C03-sqrt-fold; any foldable operand, since mutated text cannot
+// be steered around perfect squares) or uses the name OPTIMIZE (open finding
+// C03-optimize-variable). A script the parser rejects is not excluded: both
+// programs must reject it.
+func knownOptimizerShapes(script string) bool {
+	prog, err := parser.New(lexer.New(script)).Parse()
+	if err != nil || prog == nil {
+		return false
+	}
+	var foldable func(e ast.Expression) bool
+	foldable = func(e ast.Expression) bool {
+		switch x := e.(type) {
+		case *ast.IntegerLiteral:
+			return true
+		case *ast.InfixExpression:
+			switch x.Operator {
+			case "+", "-", "*", "/", "%", "**":
+				return foldable(x.Left) && foldable(x.Right)
+			}
+		case *ast.PrefixExpression:
+			return foldable(x.Right)
+		}
+		return false
+	}
+	found := false
+	var visit func(v reflect.Value, depth int)
+	visit = func(v reflect.Value, depth int) {
+		if found || depth > 400 || !v.IsValid() {
+			return
+		}
+		switch v.Kind() {
+		case reflect.Ptr, reflect.Interface:
+			if v.IsNil() {
+				return
+			}
+			if v.CanInterface() {
+				switch x := v.Interface().(type) {
+				case *ast.PrefixExpression:
+					if x != nil && x.Operator == "√" && foldable(x.Right) {
+						found = true
+						return
+					}
+				case *ast.Identifier:
+					if x != nil && strings.TrimPrefix(x.Value, "$") == "OPTIMIZE" {
+						found = true
+						return
+					}
+				case *ast.AssignStatement:
+					if x != nil && x.Name != nil && strings.TrimPrefix(x.Name.Value, "$") == "OPTIMIZE" {
+						found = true
+						return
+					}
+				}
+			}
+			visit(v.Elem(), depth+1)
+		case reflect.Struct:
+			for i := 0; i < v.NumField(); i++ {
+				if v.Type().Field(i).PkgPath == "" {
+					visit(v.Field(i), depth+1)
+				}
+			}
+		case reflect.Slice, reflect.Array:
+			for i := 0; i < v.Len(); i++ {
+				visit(v.Index(i), depth+1)
+			}
+		case reflect.Map:
+			for _, k := range v.MapKeys() {
+				visit(k, depth+1)
+				visit(v.MapIndex(k), depth+1)
+			}
+		}
+	}
+	visit(reflect.ValueOf(prog), 0)
+	// names also reach the machine as a parameter, a loop variable, the text
+	// of a member: the name anywhere in the text is enough
+	return found || strings.Contains(script, "OPTIMIZE")
 }
 
 // underflow: the failure is the one the open finding C18-valueless-operand
